@@ -337,6 +337,19 @@ def expand(key, cfg, reverse=False, prune=None):
                 want = [r for r in range(nrows) if d[(r,) + hc] == common]
                 if cr != want:
                     ctx.v("C06", "common_rowids", opd, "common_rowids%r = %r, expected %r" % (hc, cr, want))
+            arr = s.to_array(dtype=int)
+            if arr.tolist() != d.tolist():
+                ctx.v("C06", "to_array", opd, "to_array(dtype=int) = %r, dense model %r" % (arr.tolist(), d.tolist()))
+            vals_here = sorted(set(int(x) for x in d.flat) | {common})
+            if vals_here:
+                m2 = {v: 10 + i for i, v in enumerate(vals_here)}
+                m2snap = dict(m2)
+                arr2 = s.to_array(mapping=m2, dtype=int)
+                want2 = numpy.vectorize(m2.get, otypes=[numpy.int64])(d) if d.size else d
+                if arr2.tolist() != want2.tolist():
+                    ctx.v("C06", "to_array:mapping", opd, "to_array(mapping) = %r, expected %r" % (arr2.tolist(), want2.tolist()))
+                if m2 != m2snap:
+                    ctx.v("C17", "to_array:mapping-modified", opd, "mapping changed")
         unchanged(key, s, "receiver", opd, ctx, "observe", prop="C17")
     except Exception as e:  # noqa
         ctx.v("C06", "observe:raised", opd, repr(e))
